@@ -46,7 +46,7 @@ ASSUMPTIONS = [
 LEVEL_TEXT = ("generated schedules against real in-memory OpenSSL peers with a byte-stream equality oracle checked after "
               "every step; sampling, not exhaustive")
 LEVEL_NOTE = "trusts Python ssl/OpenSSL as peers and lib/driver's command interpretation"
-QUICK_N, THOROUGH_N = 24_000, 600_000
+QUICK_N, THOROUGH_N = 20_000, 600_000
 BUDGET_S = (240, 3600)
 
 _TABLE = b"".join(hashlib.sha256(b"c14-%d" % i).digest() for i in range(2048))  # 64 KiB
